@@ -1,29 +1,9 @@
 package sm2sig
 
-import (
-	"math/big"
-	"testing"
-
-	"verifh/ref/ec"
-)
+import "testing"
 
 func TestSelf(t *testing.T) {
 	if err := SelfTest(); err != nil {
 		t.Fatal(err)
-	}
-}
-
-func BenchmarkSelfTest(b *testing.B) {
-	for i := 0; i < b.N; i++ {
-		SelfTest()
-	}
-}
-
-func BenchmarkVerifyRS(b *testing.B) {
-	p := ec.BaseMul(big.NewInt(12345))
-	r := new(big.Int).Sub(ec.N, big.NewInt(77))
-	s := new(big.Int).Sub(ec.N, big.NewInt(99999))
-	for i := 0; i < b.N; i++ {
-		VerifyRS(p, big.NewInt(5), r, s)
 	}
 }
